@@ -250,7 +250,9 @@ pub fn sel_reserve(a: u32, len: usize, cap: usize, alloc: usize, off: usize) -> 
         25 => alloc / 2,
         26 => UMAX - len - off - 1,
         27 => IMAX - len - off + 1,
-        28..=31 => (a - 26) as usize,
+        28 => 131072, // large fills: size-dependent fast paths
+        29 => 131073,
+        30..=31 => (a - 26) as usize,
         _ => (((a - ARG_TABLE) as u64 * (2 * alloc.min(70000) as u64 + 66)) >> 16) as usize,
     }
 }
